@@ -346,6 +346,15 @@ func (g *G) mapping(mergeSort string, plan []ent) *yaml.Node {
 		perm := rapid.Permutation(pool).Draw(g.T, "srcperm")
 		srcs = perm[:k]
 	}
+	// two sources may also be written as two separate `<<` entries of the same mapping (the first
+	// one where the sequence form would stand, the second one at or after it): repeated merges
+	mergeAt2 := -1
+	var second []*yaml.Node
+	if len(srcs) == 2 && g.coin("repeatedmerge", 2) {
+		mergeAt2 = g.intn("mergeAt2", mergeAt, len(plan))
+		second = srcs[1:]
+		srcs = srcs[:1]
+	}
 	emitMerge := func() {
 		// entries generated since the sources were chosen may have redefined a source's name
 		srcs = g.live(srcs)
@@ -377,9 +386,17 @@ func (g *G) mapping(mergeSort string, plan []ent) *yaml.Node {
 		}
 		n.Content = append(n.Content, MergeKey(), v)
 	}
+	emitSecond := func() {
+		srcs = second
+		emitMerge()
+		g.feat("merge-repeated-entry")
+	}
 	for i, e := range plan {
 		if i == mergeAt {
 			emitMerge()
+		}
+		if i == mergeAt2 {
+			emitSecond()
 		}
 		k := g.keyNode(e)
 		v := e.gen()
@@ -387,6 +404,9 @@ func (g *G) mapping(mergeSort string, plan []ent) *yaml.Node {
 	}
 	if mergeAt == len(plan) {
 		emitMerge()
+	}
+	if mergeAt2 == len(plan) {
+		emitSecond()
 	}
 	if mergeSort != "" {
 		g.register(n, "map:"+mergeSort)
@@ -452,12 +472,14 @@ func (g *G) mapSize(label string, small int) int {
 	if oneIn < 2 {
 		oneIn = 6
 	}
-	if g.C.BigMaps && g.coin(label+"wide", 150) {
+	// wide and big mappings are budgeted per document (2 and 12): nested ones would otherwise multiply
+	// into documents of a million draws (slow, and beyond what rapid's shrinker can prune)
+	if g.C.BigMaps && g.Feat["widemap"] < 2 && g.coin(label+"wide", 150) {
 		// beyond 64 entries (bitsets, small-array fast paths and the like have their thresholds there)
 		g.feat("widemap")
 		return g.intn(label+"wn", 65, 80)
 	}
-	if g.C.BigMaps && g.coin(label+"big", oneIn) {
+	if g.C.BigMaps && g.Feat["bigmap"] < 12 && g.coin(label+"big", oneIn) {
 		g.feat("bigmap")
 		return g.intn(label+"n", 9, 24)
 	}
